@@ -33,13 +33,14 @@ PROFILE = netgen.profile(dcline=False, oos=0.04, open_prob=0.3, nb_max=8, max_pe
 
 @st.composite
 def _op(draw):
-    k = draw(st.sampled_from(["edit", "edit", "toggle", "switch", "switch", "add", "drop", "run", "run", "run"]))
+    k = draw(st.sampled_from(["edit", "edit", "toggle", "switch", "switch", "open_bb", "add", "drop", "run", "run", "run", "run"]))
     if k == "edit":
         return {"op": "edit", "kind": draw(st.sampled_from(["load_p", "load_scaling", "sgen_q", "gen_vm", "gen_p", "tap", "line_len", "sn_mva"])),
                 "sel": draw(st.integers(0, 30)), "val": draw(st.sampled_from([0.0, 0.5, 0.8, 1.25, 2.0]))}
     if k == "toggle":
-        return {"op": "toggle", "table": draw(st.sampled_from(["line", "load", "sgen", "trafo", "gen", "bus"])), "sel": draw(st.integers(0, 30))}
-    if k in ("switch", "add", "drop"):
+        return {"op": "toggle", "table": draw(st.sampled_from(["line", "load", "sgen", "trafo", "gen", "bus", "ext_grid", "ext_grid"])),
+                "sel": draw(st.integers(0, 30))}
+    if k in ("switch", "add", "drop", "open_bb"):
         return {"op": k, "sel": draw(st.integers(0, 30))}
     calc = draw(st.sampled_from(RUNS))
     o = {"op": "run", "calc": calc}
@@ -47,7 +48,8 @@ def _op(draw):
         o.update(init=draw(st.sampled_from(["auto", "flat", "dc", "results", "results"])),
                  algorithm=draw(st.sampled_from(["nr", "nr", "nr", "iwamoto_nr", "gs"])),
                  angles=draw(st.sampled_from([True, True, False])), numba=draw(st.sampled_from([True, True, False])),
-                 lightsim2grid=draw(st.sampled_from([False, "auto"])), recycle=draw(st.sampled_from([None, None, "bus_pq"])))
+                 lightsim2grid=draw(st.sampled_from([False, "auto"])), recycle=draw(st.sampled_from([None, None, "bus_pq"])),
+                 enforce_q_lims=draw(st.sampled_from([False, False, True])))
     return o
 
 
@@ -106,6 +108,8 @@ def apply_edit(net, o):
     elif k == "switch" and len(net.switch):
         i = pick("switch")
         net.switch.at[i, "closed"] = not bool(net.switch.at[i, "closed"])
+    elif k == "open_bb" and len(net.switch):
+        net.switch.loc[net.switch.et == "b", "closed"] = False
     elif k == "add":
         b = net.bus.index[sel % len(net.bus)]
         pp.create_load(net, b, p_mw=0.01 * netgen.LEVELS.get(float(net.bus.at[b, "vn_kv"]), {"s": 1.0})["s"], q_mvar=0.0)
@@ -125,6 +129,8 @@ def call(net, o, init_override=None):
                       max_iteration={"nr": 30, "iwamoto_nr": 30, "gs": 10000}[o["algorithm"]])
             if o["algorithm"] == "nr":
                 kw["lightsim2grid"] = o["lightsim2grid"]
+            if o.get("enforce_q_lims") and o["algorithm"] in ("nr", "iwamoto_nr"):
+                kw["enforce_q_lims"] = True
             if o.get("recycle") and o["algorithm"] == "nr":
                 kw["recycle"] = {"bus_pq": True, "trafo": False, "gen": False}
             pp.runpp(net, **kw)
